@@ -48,10 +48,12 @@ def native_from_slim(mask, slim, fill=0.0):
     return out
 
 
-def normal_equations(t, vis, noise, noreg=(), eps=0.0):
+def normal_equations(t, vis, noise, noreg=(), eps=0.0, t_abs=None):
     """D_j = sum_k Re V_k Re T_kj / sr_k^2 + Im V_k Im T_kj / si_k^2,
     F = Tr^T diag(1/sr^2) Tr + Ti^T diag(1/si^2) Ti (+ eps on the listed diagonal entries).
-    Also returns the magnitudes of the summed terms (rounding scales)."""
+    Also returns the magnitudes of the summed terms (rounding scales). When T is itself a sum of terms that may cancel
+    (T = A M compared end to end), pass t_abs = |A| |M|: the scales are then taken from the terms summed into T, not from
+    a T that may be pure rounding noise."""
     t = np.asarray(t, dtype=complex)
     v = np.asarray(vis, dtype=complex)
     s = np.asarray(noise, dtype=complex)
@@ -61,7 +63,8 @@ def normal_equations(t, vis, noise, noreg=(), eps=0.0):
     f = t.real.T @ (wr[:, None] * t.real) + t.imag.T @ (wi[:, None] * t.imag)
     for i in noreg:
         f[i, i] += eps
-    scale_d = float((np.abs(t.real).T @ np.abs(wr * v.real) + np.abs(t.imag).T @ np.abs(wi * v.imag)).max(initial=0.0))
-    scale_f = float((np.abs(t.real).T @ (wr[:, None] * np.abs(t.real))
-                     + np.abs(t.imag).T @ (wi[:, None] * np.abs(t.imag))).max(initial=0.0)) + eps
+    ar = np.abs(t.real) if t_abs is None else np.asarray(t_abs, dtype=float)
+    ai = np.abs(t.imag) if t_abs is None else np.asarray(t_abs, dtype=float)
+    scale_d = float((ar.T @ np.abs(wr * v.real) + ai.T @ np.abs(wi * v.imag)).max(initial=0.0))
+    scale_f = float((ar.T @ (wr[:, None] * ar) + ai.T @ (wi[:, None] * ai)).max(initial=0.0)) + eps
     return d, f, scale_d, scale_f
